@@ -202,6 +202,21 @@ def check(chk):
                    detail=src(s_.ast.value), construct=f.ident, text="keep slice " + src(s_.ast.value))
             ok = bool(takes) and cfg.dominates(takes[0].id, s_.id)
             chk.ob("PAIR-15", "%s takes the frame before cutting the buffer" % qn, ok, f.where(s_.ast), construct=f.ident, text="take before cut")
+        # what is dispatched is the frame that was cut out: once the frame is taken, the raw chunk of this read (the function's parameter) is
+        # not looked at again - it equals the frame only when a read holds exactly one frame
+        if takes:
+            tvar = src(takes[0].ast.targets[0])
+            params = {a.arg for a in f.node.args.args if a.arg != "self"}
+            stale = []
+            for n_ in cfg.nodes:
+                if n_.kind not in ("stmt", "test") or n_.id == takes[0].id or not cfg.dominates(takes[0].id, n_.id):
+                    continue
+                for y in n_.walk():
+                    if isinstance(y, ast.Name) and isinstance(y.ctx, ast.Load) and y.id in params and y.id != tvar:
+                        stale.append((n_, y))
+            chk.ob("PAIR-15", "%s dispatches the frame it cut out, never the raw chunk of the read" % qn, not stale, f.where(stale[0][1]) if stale else f.where(takes[0].ast),
+                   detail="`%s` is the whole chunk handed to the decoder; the frame is `%s`" % (stale[0][1].id, tvar) if stale else "", construct=f.ident,
+                   text="raw chunk used after the frame was taken")
         # incomplete frame: buffer untouched
         brk = [n for n in cfg.nodes_where(lambda n: n.kind == "stmt" and isinstance(n.ast, ast.Break))]
         ok = bool(brk) and all(cfg.guards_at(n.id).get("%s == -1" % pos) is True for n in brk)
@@ -504,6 +519,16 @@ def check(chk):
     ok = bool(st) and bool(up) and all(cfg.dominates(s_.id, u_.id) for s_ in st for u_ in up)
     chk.ob("SYNC-1", "a full switch report is stored and applied before _process_sa returns", ok, f.where(), construct=f.ident,
            text="SA applied inline")
+    # ... every report, also one equal to the last: the remembered report is not what MPF believes (single switch events change the switches
+    # but not the remembered report), so "unchanged since the last report" says nothing about the switches
+    for u_ in up:
+        g_ = {k: v for k, v in cfg.guards_at(u_.id).items() if "hw_switch_data" in k or "hw_states" in k}
+        chk.ob("SYNC-1", "every full switch report is applied (no comparison with the previous report)", not g_, f.where(u_.ast), detail=str(sorted(g_.items())),
+               construct=f.ident, text="SA applied unconditionally")
+    uninit = [b.id for b in cfg.nodes if b.kind == "branch" and src(b.ast) == "self.platform.switches_initialized" and b.value is False]
+    w_sa = cfg.must_pass(cfg.entry.id, [u_.id for u_ in up] + uninit) if up else [cfg.entry.id]
+    chk.ob("SYNC-1", "every returning path of _process_sa applies the report (once the switches are initialised)", w_sa is None, f.where(), construct=f.ident, text="SA applied on every path",
+           path=cfg.fmt_path(w_sa, f) if w_sa and len(w_sa) > 1 else None)
     # BITS-2: the full report is unpacked completely: 8 bits per byte, number = byte offset * 8 + bit, state = that bit
     from sa.helpers import exact_selection
     bl = [h for h in cfg.nodes if h.kind == "loop" and isinstance(h.ast.iter, ast.Call) and call_attr(h.ast.iter) == "range"]
@@ -738,6 +763,9 @@ def _reaches_switch_update(repo, cls, m):
 def battery():
     from sa.battery import M
     return [
+        M("PKONE dispatches the raw chunk instead of the frame", "mpf/platforms/pkone/pkone_serial_communicator.py", "            msg = self.received_msg[:pos]\n", "            frame = self.received_msg[:pos]\n", "PAIR-15",
+          also=[("mpf/platforms/pkone/pkone_serial_communicator.py", "            if not msg:\n                continue\n\n            if msg.decode() not in self.ignored_messages:", "            if not frame:\n                continue\n\n            if frame.decode() not in self.ignored_messages:")]),
+        M("SA report applied only when it differs from the last report", "mpf/platforms/fast/communicators/net_neuron.py", "        self.platform.hw_switch_data = hw_states\n        self.update_switches_from_hw_data()", "        if hw_states != self.platform.hw_switch_data:\n            self.platform.hw_switch_data = hw_states\n            self.update_switches_from_hw_data()", "SYNC-1"),
         M("initial matrix report accepted by the direct-input card table", OP, "            if chain_serial + '-' + str(msg[0]) not in self.matrix_inp_addr_dict:", "            if chain_serial + '-' + str(msg[0]) not in self.inp_addr_dict:", "TABLE-5"),
         M("matrix reports accepted by the direct-input card table", OP, "            if chain_serial + '-' + str(msg[0]) not in self.matrix_inp_addr_dict:", "            if chain_serial + '-' + str(msg[0]) not in self.inp_addr_dict:", "TABLE-5", nth=1),
         M("only the last OPP chain registered", OP, "            await comm.connect()\n            self.serial_connections.add(comm)\n", "            await comm.connect()\n\n        self.serial_connections.add(comm)\n", "LASTONLY-0"),
